@@ -72,12 +72,14 @@ def judge(out, case, it, oc, exc, p, ctx):
     elif oc == 'exc':
         d = it.describe(exc)
         if not prog_created(d):
-            msg = str(exc)[:60]
+            msg = str(exc)[:400]
             kind = type(exc).__name__
             if 'cannot reuse' in msg:
                 kind += ':reuse'
             elif 'schedule date' in msg:
                 kind += ':past_date'
+            elif 'may only be specialised by Exception subclasses' in msg and 'CancelScope' in msg:
+                kind += ':concurrent_of_cancelscope'     # an escaped CancelScope made a child 'fail'
             out.fail('run_raises', tag + kind, 'run() ended with %r (%s), which the program did not create;%s' % (exc, d, ctx))
     # (2) signals seen by the taps
     S = Structure(prog)
